@@ -336,11 +336,21 @@ pub fn expected_verdict(gr: &Grammar, shell: &str) -> Option<Verdict> {
     Some(v)
 }
 
-/// true if the grammar contains two differently spelled within-word expressions (after
-/// expansion) that denote the same labelled language, e.g. `--x=(a|b)` and `--x=(b|a)`
-pub fn has_respelled_word(gr: &Grammar, shell: &str) -> bool {
+/// How the grammar respells within-word expressions (after expansion): two differently spelled
+/// expressions that denote the same labelled language, e.g. `--x=(a|b)` and `--x=(b|a)`.
+/// `reordered`: some such pair meets its symbols in a different order (or uses `||` inside the
+/// word) -- the recorded finding D16, interning is structural incl. symbol order.
+/// `regrouped`: some such pair meets the same symbols in the same order (`(a|b|c)` vs `(a|(b|c))`,
+/// or a part written through a definition): their minimal automata are structurally equal, so the
+/// unchanged compiler interns them as one -- two symbols for such a pair are NOT the recorded finding.
+pub struct Respelled {
+    pub reordered: bool,
+    pub regrouped: bool,
+}
+
+pub fn respelled_words(gr: &Grammar, shell: &str) -> Respelled {
     let mut r = Ref::new(gr, shell);
-    let Ok(e) = r.root(gr) else { return false };
+    let Ok(e) = r.root(gr) else { return Respelled { reordered: false, regrouped: false } };
     fn collect(e: &E, out: &mut Vec<E>) {
         match e {
             E::Sub(_) => out.push(e.clone()),
@@ -349,15 +359,48 @@ pub fn has_respelled_word(gr: &Grammar, shell: &str) -> bool {
             _ => {}
         }
     }
+    /// the leaves in the order of their first occurrence; None if the word uses `||`
+    fn order(e: &E, out: &mut Vec<String>) -> bool {
+        match e {
+            E::Lit(..) | E::Cmd(..) | E::Star(..) => {
+                let k = format!("{e:?}");
+                if !out.contains(&k) {
+                    out.push(k);
+                }
+                true
+            }
+            E::Fb(_) => false,
+            E::Seq(c) | E::Alt(c) | E::Sub(c) => c.iter().all(|x| order(x, out)),
+            E::Opt(x) | E::Many(x) | E::Def(x) => order(x, out),
+        }
+    }
     let mut words = vec![];
     collect(&e, &mut words);
-    let mut by_lang: BTreeMap<String, BTreeSet<String>> = BTreeMap::new();
+    let mut by_lang: BTreeMap<String, BTreeMap<String, Option<Vec<String>>>> = BTreeMap::new();
     for w in &words {
         let mut items = Items::default();
         let E::Sub(parts) = w else { continue };
         let Ok(rs) = parts.iter().map(|x| sem(x, 0, true, &mut items)).collect::<Result<Vec<_>, _>>() else { continue };
         let Some(d) = dfa_of_regex(&cat_all(rs), &items) else { continue };
-        by_lang.entry(d.canonical().serialize()).or_default().insert(format!("{w:?}"));
+        let mut o = vec![];
+        let ord = if order(w, &mut o) { Some(o) } else { None };
+        by_lang.entry(d.canonical().serialize()).or_default().insert(format!("{w:?}"), ord);
     }
-    by_lang.values().any(|s| s.len() > 1)
+    let mut res = Respelled { reordered: false, regrouped: false };
+    for spellings in by_lang.values() {
+        if spellings.len() > 1 {
+            let orders: BTreeSet<&Option<Vec<String>>> = spellings.values().collect();
+            if orders.len() > 1 || orders.iter().any(|o| o.is_none()) {
+                res.reordered = true;
+            } else {
+                res.regrouped = true;
+            }
+        }
+    }
+    res
+}
+
+pub fn has_respelled_word(gr: &Grammar, shell: &str) -> bool {
+    let r = respelled_words(gr, shell);
+    r.reordered || r.regrouped
 }
